@@ -213,6 +213,9 @@ func containNames() []string {
 	}
 	rec(nil)
 	names = append(names, "..a", "a..", "...", "a/..b", "..a/b", "a/...", `..\a`, `a\..\..\b`, "a//..//..//c", "./../c", "a/b/../../../c")
+	// siblings whose names begin like the target directory's ("dir"): a test of the
+	// joined path by string prefix lets them through
+	names = append(names, "../dir2/x", "../dir.old/evil.txt", "../dir-evil.txt", "../dirx", "a/b/../../../dir_x/y", "../dir/../dir2/x", "../dir/x")
 	seen := map[string]bool{}
 	var out []string
 	for _, n := range names {
